@@ -320,6 +320,19 @@ def gen_cuts(rng, n: int) -> list[int]:
     return sorted(set(rng.randrange(1, n) for _ in range(k)))
 
 
+def gen_burst(rng, n: int) -> dict:
+    """A helper that writes a whole table at once: `n` lines in one burst, read 16384 bytes at a time while the reactor
+    takes one command per turn — the backlog between the reader and the reactor is as long as the burst."""
+    version = rng.choice([4, 6])
+    g = Gen(rng, version, NBR_SETS['default'])
+    lines: list[dict] = []
+    while len(lines) < n:
+        lines += g.one()
+    for l in lines:
+        l['eol'] = '\n'
+    return {'version': version, 'ack': True, 'nbrs': 'default', 'lines': lines, 'tail': '', 'cuts': [], 'cuts2': [], 'spin': 0, 'stall': 0}
+
+
 def gen_case(rng, tier: str) -> dict:
     version = rng.choice([4, 6])
     nbrs = rng.choice(['default', 'default', 'default', 'two', 'same-as', 'one-foreign', 'lookalike-v6', 'lookalike-v6', 'lookalike-v4', 'lookalike-v4'])
@@ -742,16 +755,20 @@ def shrink_selector(case: dict, line: int) -> tuple[dict, dict]:
 
 
 def shrink_lines(case: dict, bad) -> dict:
-    """Delta debugging over the lines of a case, then the coarsest chunking that still shows it."""
+    """Delta debugging over the lines of a case, then the coarsest chunking that still shows it.  A failure that needs
+    a long stream (a burst of a thousand lines) is costly to re-run: the search stops after 25 s and reports what it has."""
     cur = copy.deepcopy(case)
     n = 2
-    while len(cur['lines']) >= 2:
+    stop = time.time() + 25
+    while len(cur['lines']) >= 2 and time.time() < stop:
         chunk = max(1, len(cur['lines']) // n)
         reduced = False
         for i in range(0, len(cur['lines']), chunk):
             cand = copy.deepcopy(cur)
             cand['lines'] = cur['lines'][:i] + cur['lines'][i + chunk :]
             cand['cuts'], cand['cuts2'] = [], []
+            if time.time() > stop:
+                break
             if cand['lines'] and bad(cand):
                 cur, reduced = cand, True
                 n = max(n - 1, 2)
@@ -935,6 +952,8 @@ def run(ctx: Ctx) -> None:
     seen: set = set()
     cases: list[tuple[dict, str]] = [(c, 'corpus') for c in load_corpus()]
     cases.append(({**oversize_probe(), 'model': ctx.tier == 'thorough'}, 'oversize-probe'))
+    for n in ((1500,) if ctx.tier == 'quick' else (1001, 2500, 6000)):
+        cases.append((gen_burst(rng, n), 'burst'))
     nrandom = 1400 if ctx.tier == 'quick' else 20000
     nraw = 350 if ctx.tier == 'quick' else 4000
     for i in range(nrandom):
